@@ -61,8 +61,8 @@ type HeldView struct {
 	// What was decided then is shared (same memory) between the view, the service and other views; what
 	// was pending the view evaluates into memory of its own.  Values alone do not show the difference.
 	PendingAtOpen string
-	OpenedAt     int // number of events before it
-	Released     bool
+	OpenedAt      int // number of events before it
+	Released      bool
 }
 
 type World struct {
